@@ -1,7 +1,10 @@
 import CandidModel.Wire
+import CandidModel.Proofs.DeWellFormed
 /-
   C02 — Decoding at an expected type is exactly the specification's coercion.
-  (first instalment; the decode/encode round-trip theorems live in Props/C03.lean and Props/C10.lean)
+  The decode/encode round-trip theorems live in Props/C03.lean and Props/C10.lean; here: facts about the coercion
+  relation, the header, and the "only if" half of the property for the decoder mirror (`De`, with its cost
+  accounting and back-tracking): what it accepts is a well-formed message.
 -/
 namespace Candid.Props.C02
 open Candid Candid.Wire
@@ -48,5 +51,38 @@ theorem trailing_is_error (bs : Bytes) (env : Env) (ts : List Ty) (h : Header) (
     decodeArgs bs env ts = .err .malformed := by
   unfold decodeArgs
   simp [h1, h3]
+
+open Candid.De in
+/-- **The decoder accepts only well-formed messages** (the "only if" half of the property, for the mirror of de.rs):
+whenever decoding returns values — under any decoding / skipping quotas, with any back-tracking of options along the
+way, at expected types that are closed in the working environment and free of the `future` placeholder — the bytes
+are a header the specification's parser accepts, followed by exactly one well-formed value of every declared
+argument type as the specification's reader sees it, with nothing left over. -/
+theorem decoder_accepts_only_wellformed_messages (bs : Bytes) (env : Env) (expected : List Ty) (cfg : Config)
+    (vs : List Val) (st : St) (h : decodeWithConfig bs env expected cfg = .ok vs st) :
+    ∃ hd body, parseHeader bs = .ok (hd, body) ∧
+      ∀ S, CleanCtx (workEnv hd env expected).1 S → (∀ e ∈ (workEnv hd env expected).2, cleanTy S e = true) →
+        ∃ m ws, decArgs (workEnv hd env expected).1 m hd.args body = .ok (ws, []) :=
+  decode_ok_wellformed bs env expected cfg vs st h
+
+open Candid.De in
+/-- when every argument is skipped (no expected types) no side condition is left: acceptance alone makes the message
+well formed -/
+theorem skipping_decoder_accepts_only_wellformed_messages (bs : Bytes) (env : Env) (cfg : Config) (vs : List Val)
+    (st : St) (h : decodeWithConfig bs env [] cfg = .ok vs st) :
+    ∃ hd body m ws, parseHeader bs = .ok (hd, body) ∧ decArgs hd.table m hd.args body = .ok (ws, []) :=
+  decode_skip_wellformed bs env cfg vs st h
+
+open Candid.De in
+/-- every entry point of the decoder, at every depth, consumes exactly one value of the wire type it is given
+(what the theorem above is assembled from) -/
+theorem entry_points_read_one_wire_value (env : Env) (S : List String) (hc : CleanCtx env S) (fuel : Nat) :
+    (∀ vis, HA env S vis (deAny env vis fuel)) ∧ HI env (deIgnored env fuel) ∧
+    (∀ vis, HA env S vis (recoverable env vis fuel)) :=
+  ⟨(de_reads env S hc fuel).1, (de_reads env S hc fuel).2.1, (de_reads env S hc fuel).2.2.1⟩
+
+/-- non-vacuity: the side conditions hold for closed expected types over an empty caller environment -/
+example : De.CleanCtx ([] : Env) [] ∧ De.cleanTy [] (.opt (.record (.cons (.id 0) (.prim .nat) .nil))) = true := by
+  refine ⟨fun x hx => by simp at hx, by decide⟩
 
 end Candid.Props.C02
